@@ -187,26 +187,19 @@ def parseWhere (s : String) : Option Where :=
 def dedup (l : List String) : List String :=
   l.foldl (fun acc s => if acc.contains s then acc else acc ++ [s]) []
 
-def seekClass : List String := ["outside-empty", "outside-comp", "root-start-outside",
-  "N:outside-empty", "N:outside-comp", "N:root-start-outside"]
 def rawClass : List String := ["N:index@raw", "N:hull@raw", "N:order@raw", "N:index@rawparent", "N:hull@rawparent", "N:order@rawparent"]
 
 /-- verdict of the property predicate on the implementation's tree.
-    `tls`: the tree contains a value of format/tls.  `modelOver`: (prog runs only) the model says that this
-    program started a RangeFn with a negative length, i.e. with the cursor beyond its section.
-    The documented defect classes (known_findings.json) are recognised by their exact signature; anything else
-    that is not WF is a PROPFAIL. -/
-def propVerdict (w : Where) (tls modelOver : Bool) (t : T) : String :=
+    `tls`: the tree contains a value of format/tls.  The documented defect class (known_findings.json) is
+    recognised by its exact signature; anything else that is not WF is a PROPFAIL. -/
+def propVerdict (w : Where) (tls : Bool) (t : T) : String :=
   if wfAt w t then "OK"
   else
     let rs := dedup (whys (match w with | .nested => true | _ => false) false w t)
     if rs.isEmpty then "PROPFAIL not-wf (no diagnosis)"
     else
       let why := ",".intercalate rs
-      if modelOver && rs.all (seekClass.contains ·) && rs.any (fun s => s.endsWith "outside-empty" || s.endsWith "root-start-outside") then
-        -- every out-of-buffer value is an EMPTY range (or a compound whose correct hull inherits it)
-        s!"KNOWN rangefn-negative-length {why}"
-      else if tls && rs.all (rawClass.contains ·) && rs.any (·.endsWith "@raw") then
+      if tls && rs.all (rawClass.contains ·) && rs.any (·.endsWith "@raw") then
         -- a sub-tree inside a nested buffer root that postProcess never visited, in a tree with a format/tls value
         s!"KNOWN tls-late-fields {why}"
       else s!"PROPFAIL {why}"
@@ -232,8 +225,7 @@ def step (op obs : String) : String :=
         | "T" :: ts =>
           match parseT ts with
           | some (t, []) =>
-            -- the RangeFn excuse needs the model to predict exactly this tree
-            let pv := propVerdict .top false (res.over && div.isEmpty) t
+            let pv := propVerdict .top false t
             if pv == "OK" then (if div.isEmpty then "OK" else div)
             else if div.isEmpty then pv else pv ++ " ;" ++ div
           | _ => "BADOP tree"
@@ -245,7 +237,7 @@ def step (op obs : String) : String :=
     match parseWhere w, parseBool p, (if tls == "tls" then some true else if tls == "-" then some false else none), words obs with
     | some w, some _p, some tls, "T" :: ts =>
       match parseT ts with
-      | some (t, []) => propVerdict w tls false t
+      | some (t, []) => propVerdict w tls t
       | _ => "BADOP tree"
     | _, _, _, _ => "BADOP mon"
   | _ => "BADOP op"
